@@ -28,6 +28,9 @@ def tasks(tier):
           RequestorSiteTask("C11/"), RequestorSiteFamilyTask("C11/")]
     from contracts.C12 import AssociateIdsTask, IdsLemma
     ts += [AssociateIdsTask(), IdsLemma()]
+    # a negotiation the requestor cannot accept ends with send_abort(2): what that call sends and marks
+    from contracts.acse_neg import SendAbortTask
+    ts += [SendAbortTask("abort", "C11/")]
     # wire form of the result list and of the role items (subset of the C01 tasks)
     ts += [codec.PrimTask("A_ASSOCIATE/ac", (2, 1, ("MaximumLengthNotification", "ImplementationClassUIDNotification")), "C11/"),
            codec.PrimTask("A_ASSOCIATE/ac", (1, 1, ("MaximumLengthNotification", "ImplementationClassUIDNotification",
